@@ -98,6 +98,14 @@ func signedRejects03() []signedReject03 {
 		{"qe-wrong-mrsigner", "qe", func(w *world.World) { w.Qe.MrSigner = strings.Repeat("cd", 32) }},
 		{"qe-expired", "qe", func(w *world.World) { w.Qe.NextUpdate = world.Epoch.Add(-400 * world.Day) }},
 		{"qe-wrong-isvprodid", "qe", func(w *world.World) { w.Qe.IsvProdID = fmt.Sprint((int(w.P.QeIsvProdID) + 1) % 65536) }},
+		// a genuinely signed document of ANOTHER kind or version (Intel signs SGX TCB Info and SGX QE identities with the same
+		// key): what kind of document it is, is a signed value like any other
+		{"tcb-id-sgx", "tcb", func(w *world.World) { w.Tcb.ID = "SGX" }},
+		{"tcb-version-2", "tcb", func(w *world.World) { w.Tcb.Version = "2" }},
+		{"qe-id-qe", "qe", func(w *world.World) { w.Qe.ID = "QE" }},
+		{"qe-version-1", "qe", func(w *world.World) { w.Qe.Version = "1" }},
+		{"tcb-no-levels", "tcb", func(w *world.World) { w.Tcb.Levels = nil }},
+		{"qe-no-levels", "qe", func(w *world.World) { w.Qe.Levels = nil }},
 	}
 }
 
@@ -469,6 +477,61 @@ func c03(x *mon.Ctx) {
 	x.Require("tcb-control-second-genuine-signer", nw, 0, nw)
 	x.Require("qe-signer-is-platform-ca", 0, nw, nw)
 	stageEventsForgedUnderDefaultRoot(x)
+
+	// ---- "the signature field of the SAME response": an endpoint that answers the same URL twice, differently. First an unsigned
+	//      (or otherwise unusable) document that carries what the signed one is silent about — TDX module identities, a status,
+	//      a product id — then the genuinely signed document. Whether or not the library asks again, the signed document alone
+	//      does not carry the verdict, and nothing of the first answer may.
+	{
+		n := 0
+		for wi := 0; wi < x.Pick(4, 24); wi++ {
+			r := x.Rand(fmt.Sprint("answers-twice", wi))
+			p := world.RandPlatform(r)
+			p.TeeTcb[1] = byte(1 + wi%3)
+			w := world.Honest(r, world.HonestOpts{Shape: world.QuoteShape{AuthLen: 32}, Platform: p})
+			honest := w.Case(world.LColl, "endpoint-answers-twice", fmt.Sprintf("w%d/control", wi))
+			honest.Expect = "accept"
+			check(x, wi, honest)
+			full := w.Tcb.JSON() // with the module identity the TD needs
+			ws := w.Clone()
+			ws.Tcb.OmitMods = true
+			ws.Resign() // signed, silent about module identities
+			signed := ws.TcbBody
+			tcbURL := world.TcbInfoURL(hex.EncodeToString(p.FMSPC[:]))
+			qeFull := w.Qe.JSON()
+			for name, first := range map[string][]byte{
+				"unsigned-member-only":         []byte(`{"tcbInfo":` + full + `}`),
+				"unsigned-member-bad-sig-type": []byte(`{"tcbInfo":` + full + `,"signature":12}`),
+				"unsigned-member-truncated":    []byte(`{"tcbInfo":` + full),
+				"unsigned-member-other-case":   []byte(`{"TCBINFO":` + full + `}`),
+				"signed-by-foreign-key":        world.SignedBody("tcbInfo", full, world.NewKey()),
+			} {
+				c := ws.Case(world.LColl, "endpoint-answers-twice", fmt.Sprintf("w%d/tcbinfo/%s-then-signed-without-module-identities", wi, name))
+				c.RespSeq = map[string][]world.Resp{tcbURL: {{H: c.Resp[tcbURL].H, B: first}, {H: c.Resp[tcbURL].H, B: signed}}}
+				c.Expect, c.ShadowSkip = "reject", true
+				check(x, wi, c)
+				n++
+			}
+			// the QE Identity the same way: the signed document's deciding level is OutOfDate, the unsigned first answer says UpToDate
+			wq := w.Clone()
+			for i := range wq.Qe.Levels {
+				wq.Qe.Levels[i].Status = "OutOfDate"
+			}
+			wq.Resign()
+			qeURL := world.QeIdentityURL()
+			for name, first := range map[string][]byte{
+				"unsigned-member-only":      []byte(`{"enclaveIdentity":` + qeFull + `}`),
+				"unsigned-member-truncated": []byte(`{"enclaveIdentity":` + qeFull),
+			} {
+				c := wq.Case(world.LColl, "endpoint-answers-twice", fmt.Sprintf("w%d/qeidentity/%s-then-signed-out-of-date", wi, name))
+				c.RespSeq = map[string][]world.Resp{qeURL: {{H: c.Resp[qeURL].H, B: first}, {H: c.Resp[qeURL].H, B: wq.QeBody}}}
+				c.Expect, c.ShadowSkip = "reject", true
+				check(x, wi, c)
+				n++
+			}
+		}
+		x.Require("endpoint-answers-twice", x.Pick(4, 24), n, n+x.Pick(4, 24))
+	}
 
 	// ---- a getter that re-uses its read buffer: the TCB Info response carries a FORGED member F (status flipped to UpToDate, padded
 	//      to the genuine member's length) next to the genuine signature; the QE Identity response, fetched next, carries the
